@@ -44,6 +44,10 @@ fn paths_of(table: usize) -> Vec<String> {
     if table == 0 {
         return PATHS.iter().map(|p| p.to_string()).collect();
     }
+    if table == 2 {
+        // paths that differ only in how a character is spelled: the router compares text, it does not decode
+        return ["/a:b", "/a%3Ab", "/a%3ab", ":", "%3A", "/a:b:c", "/a%3Ab:c", "/a%2Fb"].iter().map(|p| p.to_string()).collect();
+    }
     let base = |n: usize| -> String {
         let mut p = String::from("/");
         while p.len() < n {
@@ -501,13 +505,15 @@ fn nested_family(ctx: &mut Ctx) {
 fn long_path_family(ctx: &mut Ctx) {
     let n = ctx.budget(160, 8_000) / ctx.nshards + 1;
     let mut rng: Rng = ctx.rng.fork(0xC17_256);
-    for _ in 0..n {
+    for i in 0..n {
+        // table 1: long paths; table 2: paths that differ only in the spelling of one character
+        let table = 1 + (i % 2) as usize;
         let prefix = *rng.pick(&PREFIXES);
         let k = rng.range(1, 4);
         let regs: Vec<(usize, usize)> = (0..k).map(|_| (rng.below(3), rng.below(8))).collect();
-        let uris = request_uris_t(1, prefix);
-        ctx.rep.count("tables_with_long_paths");
-        if check_table_t(ctx, 1, prefix, &regs, &uris, None) && ctx.rep.violations_total > 10 {
+        let uris = request_uris_t(table, prefix);
+        ctx.rep.count(if table == 1 { "tables_with_long_paths" } else { "tables_with_percent_spellings" });
+        if check_table_t(ctx, table, prefix, &regs, &uris, None) && ctx.rep.violations_total > 10 {
             return;
         }
     }
